@@ -25,7 +25,7 @@ pub const FAULT_NAMES: [&str; 7] = ["none", "file_absent", "torn_write_truncate"
 
 #[derive(Clone, Debug, Serialize, Deserialize, PartialEq)]
 pub struct CliOp {
-    /// 0 authorize, 1 validate, 2 translate-policy cedar-to-json, 3 translate-schema cedar-to-json, 4 translate-schema json-to-cedar, 5 check-parse
+    /// 0 authorize, 1 validate, 2 translate-policy (cedar-to-json, or json-to-cedar when policy_json), 3 translate-schema cedar-to-json, 4 translate-schema json-to-cedar, 5 check-parse
     pub kind: u8,
     pub ps: u8,
     pub store: u8,
@@ -37,6 +37,9 @@ pub struct CliOp {
     /// give the request as a `--request-json` file instead of flags + `--context`
     #[serde(default)]
     pub request_json: bool,
+    /// give the policies as a JSON policy set (`--policy-format json`)
+    #[serde(default)]
+    pub policy_json: bool,
     pub faults: Vec<FileFault>,
     pub hash_seed: u64,
 }
@@ -123,11 +126,30 @@ fn rename_from_id(ps: &PolicySet) -> Result<PolicySet, String> {
     Ok(out)
 }
 
-fn api_policies(files: &[Option<Vec<u8>>; 6], with_links: bool) -> Result<PolicySet, String> {
+fn api_policies(files: &[Option<Vec<u8>>; 6], with_links: bool, json_format: bool) -> Result<PolicySet, String> {
     let bytes = files[0].as_ref().ok_or("policies file absent")?;
     let text = std::str::from_utf8(bytes).map_err(|e| e.to_string())?;
-    let ps = PolicySet::from_str(text).map_err(|e| e.to_string())?;
-    let mut ps = rename_from_id(&ps)?;
+    let mut ps = if json_format {
+        // mirror of the documented JSON route: a policy set document or a single policy / template
+        let json: Value = serde_json::from_str(text).map_err(|e| e.to_string())?;
+        let has = |keys: &[&str]| keys.iter().any(|k| json.get(k).is_some());
+        match (has(&["staticPolicies", "templates", "templateLinks"]), has(&["action", "effect", "principal", "resource", "conditions"])) {
+            (false, false) | (true, true) => return Err("cannot determine the kind of JSON policy document".into()),
+            (true, _) => PolicySet::from_json_value(json).map_err(|e| e.to_string())?,
+            (_, true) => match cedar_policy::Policy::from_json(None, json.clone()) {
+                Ok(p) => PolicySet::from_policies([p]).map_err(|e| e.to_string())?,
+                Err(_) => {
+                    let t = cedar_policy::Template::from_json(None, json).map_err(|e| e.to_string())?;
+                    let mut ps = PolicySet::new();
+                    ps.add_template(t).map_err(|e| e.to_string())?;
+                    ps
+                }
+            },
+        }
+    } else {
+        let ps = PolicySet::from_str(text).map_err(|e| e.to_string())?;
+        rename_from_id(&ps)?
+    };
     if with_links {
         let lb = files[1].as_ref().ok_or("links file absent")?;
         if !lb.is_empty() {
@@ -169,7 +191,32 @@ pub fn do_cli(step: usize, op: &CliOp, ps: &PsDoc, store: &[Value], schema_text:
     out.counts.push(("evaluations", 1));
     out.counts.push(("cli_spawns", 1));
     // ---- "write": the documents as the user stored them
-    let policies_text = ps.statics.iter().chain(ps.templates.iter()).map(|(_, t)| t.clone()).collect::<Vec<_>>().join("\n");
+    let mut policies_text = ps.statics.iter().chain(ps.templates.iter()).map(|(_, t)| t.clone()).collect::<Vec<_>>().join("\n");
+    // JSON policy-set form of the same documents (falls back to text when a document has no JSON form)
+    let mut pjson = op.policy_json;
+    if pjson {
+        let mut st = serde_json::Map::new();
+        let mut tm = serde_json::Map::new();
+        for (id, t) in &ps.statics {
+            match cedar_policy::Policy::parse(None, t).ok().and_then(|p| p.to_json().ok()) {
+                Some(j) => {
+                    st.insert(id.clone(), j);
+                }
+                None => pjson = false,
+            }
+        }
+        for (id, t) in &ps.templates {
+            match cedar_policy::Template::parse(None, t).ok().and_then(|p| p.to_json().ok()) {
+                Some(j) => {
+                    tm.insert(id.clone(), j);
+                }
+                None => pjson = false,
+            }
+        }
+        if pjson {
+            policies_text = json!({"staticPolicies": st, "templates": tm, "templateLinks": []}).to_string();
+        }
+    }
     let links_json: Vec<Value> = ps
         .links
         .iter()
@@ -232,6 +279,9 @@ pub fn do_cli(step: usize, op: &CliOp, ps: &PsDoc, store: &[Value], schema_text:
     match kind {
         0 => {
             cmd.arg("authorize").arg("--policies").arg(path(0)).arg("--entities").arg(path(2));
+            if pjson {
+                cmd.arg("--policy-format").arg("json");
+            }
             if with_links {
                 cmd.arg("--template-linked").arg(path(1));
             }
@@ -252,12 +302,15 @@ pub fn do_cli(step: usize, op: &CliOp, ps: &PsDoc, store: &[Value], schema_text:
         }
         1 => {
             cmd.arg("validate").arg("--policies").arg(path(0)).arg("--schema").arg(path(3)).arg("--schema-format").arg(if json_schema { "json" } else { "cedar" });
+            if pjson {
+                cmd.arg("--policy-format").arg("json");
+            }
             if with_links {
                 cmd.arg("--template-linked").arg(path(1));
             }
         }
         2 => {
-            cmd.arg("translate-policy").arg("--direction").arg("cedar-to-json").arg("--policies").arg(path(0));
+            cmd.arg("translate-policy").arg("--direction").arg(if pjson { "json-to-cedar" } else { "cedar-to-json" }).arg("--policies").arg(path(0));
         }
         3 => {
             cmd.arg("translate-schema").arg("--direction").arg("cedar-to-json").arg("--schema").arg(path(3));
@@ -267,6 +320,9 @@ pub fn do_cli(step: usize, op: &CliOp, ps: &PsDoc, store: &[Value], schema_text:
         }
         _ => {
             cmd.arg("check-parse").arg("--policies").arg(path(0)).arg("--entities").arg(path(2));
+            if pjson {
+                cmd.arg("--policy-format").arg("json");
+            }
             if had[3] {
                 cmd.arg("--schema").arg(path(3)).arg("--schema-format").arg(if json_schema { "json" } else { "cedar" });
             }
@@ -293,7 +349,7 @@ pub fn do_cli(step: usize, op: &CliOp, ps: &PsDoc, store: &[Value], schema_text:
     // ---- reference: what the API reports for those bytes
     match kind {
         0 => {
-            let policies = api_policies(&files, with_links);
+            let policies = api_policies(&files, with_links, pjson);
             let schema = if had[3] { api_schema_bytes(&files, json_schema).map(Some) } else { Ok(None) };
             let want: Result<(Decision, BTreeSet<String>), String> = (|| {
                 let mut errs = vec![];
@@ -392,7 +448,7 @@ pub fn do_cli(step: usize, op: &CliOp, ps: &PsDoc, store: &[Value], schema_text:
         }
         1 => {
             let want: Result<bool, String> = (|| {
-                let p = api_policies(&files, with_links)?;
+                let p = api_policies(&files, with_links, pjson)?;
                 let s = api_schema_bytes(&files, json_schema)?;
                 Ok(Validator::new(s).validate(&p, ValidationMode::Strict).validation_passed())
             })();
@@ -408,9 +464,28 @@ pub fn do_cli(step: usize, op: &CliOp, ps: &PsDoc, store: &[Value], schema_text:
                 out.violation = viol("cli_exit_status", "cli validate", step, format!("exit {wc} ({want:?})"), format!("exit {code}"));
             }
         }
+        2 if pjson => {
+            let want: Result<String, String> = (|| {
+                let p = api_policies(&files, false, true)?;
+                p.to_cedar().ok_or_else(|| "contains template-linked policies".to_string())
+            })();
+            match want {
+                Err(_) => {
+                    out.counts.push(("designed_failures_observed", 1));
+                    if code != 1 {
+                        out.violation = viol("cli_exit_status", "cli translate-policy json-to-cedar", step, "exit 1".into(), format!("exit {code}"));
+                    }
+                }
+                Ok(w) => {
+                    if code != 0 || stdout.trim() != w.trim() {
+                        out.violation = viol("cli_conversion_differs", "cli translate-policy json-to-cedar", step, format!("exit 0 and {}", w.chars().take(300).collect::<String>()), format!("exit {code} and {}", stdout.chars().take(300).collect::<String>()));
+                    }
+                }
+            }
+        }
         2 => {
             let want: Result<Value, String> = (|| {
-                let p = api_policies(&files, false)?;
+                let p = api_policies(&files, false, pjson)?;
                 p.to_json().map_err(|e| e.to_string())
             })();
             match want {
@@ -456,7 +531,7 @@ pub fn do_cli(step: usize, op: &CliOp, ps: &PsDoc, store: &[Value], schema_text:
             }
         }
         _ => {
-            let ok_p = api_policies(&files, false).is_ok();
+            let ok_p = api_policies(&files, false, pjson).is_ok();
             let schema = if had[3] { api_schema_bytes(&files, json_schema).map(Some) } else { Ok(None) };
             let ok_s = schema.is_ok();
             // the CLI loads entities with the schema only when the schema parsed
